@@ -63,6 +63,12 @@ pub struct ReadRec {
     pub ops_from: usize,
     pub ops_to: usize,
     pub drain: bool,
+    /// input bytes accepted by the stdin pipe before / after this read
+    pub input_before: usize,
+    pub input_after: usize,
+    /// poll() would report the stdin pipe writable at the start / end of this read
+    pub stdin_room_start: bool,
+    pub stdin_room_end: bool,
 }
 
 pub struct Outcome {
@@ -222,6 +228,10 @@ pub fn run_simk(case: &SimkCase) -> Outcome {
                 ops_from,
                 ops_to: 0,
                 drain,
+                input_before: sim.input_accepted.len(),
+                input_after: 0,
+                stdin_room_start: sim.pipes[0].as_ref().map(|p| p.writer_open && p.reader_open && p.writable()).unwrap_or(false),
+                stdin_room_end: false,
             };
             if string_variant {
                 match c.read_string() {
@@ -255,6 +265,8 @@ pub fn run_simk(case: &SimkCase) -> Outcome {
             let sim = unsafe { &mut *simp };
             rec.t_end = sim.now;
             rec.ops_to = sim.ops.len();
+            rec.input_after = sim.input_accepted.len();
+            rec.stdin_room_end = sim.pipes[0].as_ref().map(|p| p.writer_open && p.reader_open && p.writable()).unwrap_or(false);
             rec.polls_after_deadline = sim.polls_after_deadline;
             rec.io_after_deadline = sim.io_after_deadline;
             sim.cur_deadline = None;
@@ -563,6 +575,10 @@ pub fn judge_c02(case: &SimkCase, o: &Outcome) -> CaseResult {
     Ok(())
 }
 
+/// Length of a run of limit-cut reads without any input progress that counts as
+/// "the input is no longer being delivered".
+pub const STARVE_RUN: usize = 24;
+
 pub fn judge_c03(case: &SimkCase, o: &Outcome) -> CaseResult {
     common_checks("C03", case, o)?;
     match &o.verdict {
@@ -588,6 +604,33 @@ pub fn judge_c03(case: &SimkCase, o: &Outcome) -> CaseResult {
                 if (piped(1) && !r.eof_out) || (piped(2) && !r.eof_err) {
                     return Err(Fail::new("C03:empty-before-eof", format!("read #{} returned all-empty Ok while a stream was not at end-of-file\n{}", i, describe(case, o))));
                 }
+            }
+        }
+    }
+    // "while a read is cut short by the limit the remaining input keeps being
+    // delivered by later reads": a run of STARVE_RUN consecutive reads, each cut
+    // short by its limit, each starting and ending with input pending and the
+    // stdin pipe writable, must have delivered at least one byte of input
+    {
+        let mut run = 0usize;
+        let mut run_from = 0usize;
+        for (i, r) in o.reads.iter().enumerate() {
+            let got = r.out.as_ref().map(|v| v.len()).unwrap_or(0) + r.err.as_ref().map(|v| v.len()).unwrap_or(0);
+            let cut = r.ok && !r.drain && r.size_limit.map(|n| got >= n).unwrap_or(false);
+            let starved = cut && r.input_before < o.input.len() && r.input_after == r.input_before && r.stdin_room_start && r.stdin_room_end;
+            if starved {
+                if run == 0 {
+                    run_from = i;
+                }
+                run += 1;
+                if run >= STARVE_RUN {
+                    return Err(Fail::new(
+                        "C03:input-starved",
+                        format!("reads #{}..#{} were all cut short by their size limit and none delivered a byte of the {} pending input bytes although the stdin pipe was writable throughout\n{}", run_from, i, o.input.len() - r.input_before, describe(case, o)),
+                    ));
+                }
+            } else {
+                run = 0;
             }
         }
     }
@@ -788,6 +831,14 @@ fn script_strategy(cap: u32, allow_flood: bool) -> BoxedStrategy<(String, Vec<CO
         0..14,
     )
     .prop_map(|s| ("random-ops".to_string(), s, true));
+    let select_loop = (out_stream(), chunk_strategy(), any::<bool>()).prop_map(|(to, chunk, tail)| {
+        // a child that keeps producing output while it waits for its input
+        let mut s = vec![COp::FloodUntilInput { to, chunk, need: 0 }];
+        if tail {
+            s.push(COp::Write { to: 3 - to, n: 100 });
+        }
+        ("select-loop".to_string(), s, true)
+    });
     if allow_flood {
         let flood = (out_stream(), chunk_strategy(), any::<bool>()).prop_map(|(to, chunk, rd)| {
             let mut s = vec![];
@@ -808,7 +859,7 @@ fn script_strategy(cap: u32, allow_flood: bool) -> BoxedStrategy<(String, Vec<CO
     } else {
         prop_oneof![
             2 => silent, 4 => cat, 4 => consume_then_answer, 5 => answer_first, 4 => pingpong, 3 => interleaved,
-            3 => early_close, 2 => early_exit, 2 => trickle, 2 => close_in_full, 4 => random_ops
+            3 => early_close, 2 => early_exit, 2 => trickle, 2 => close_in_full, 4 => random_ops, 3 => select_loop
         ]
         .boxed()
     }
@@ -858,7 +909,9 @@ fn reads_strategy(focus: Focus) -> BoxedStrategy<Vec<ReadSpec>> {
         .boxed(),
         Focus::C03 => {
             let lim = prop_oneof![Just(1u32), Just(2u32), Just(4095u32), Just(4096u32), Just(4097u32), Just(10_000u32), 1u32..70000, Just(1u32 << 30)];
-            prop::collection::vec(prop_oneof![3 => lim.prop_map(Some), 2 => Just(None)], 1..40)
+            let steady = (prop_oneof![Just(1u32), Just(7u32), Just(1000u32), Just(4095u32), Just(4096u32), 1u32..4097, 4097u32..20000], 24usize..70)
+                .prop_map(|(n, k)| vec![ReadSpec { size: Some(n), time_ns: None }; k]);
+            let mixed = prop::collection::vec(prop_oneof![3 => lim.prop_map(Some), 2 => Just(None)], 1..40)
                 .prop_map(|v| {
                     let mut first = true;
                     v.into_iter()
@@ -867,9 +920,9 @@ fn reads_strategy(focus: Focus) -> BoxedStrategy<Vec<ReadSpec>> {
                             first = false;
                             ReadSpec { size: s, time_ns: None }
                         })
-                        .collect()
-                })
-                .boxed()
+                        .collect::<Vec<ReadSpec>>()
+                });
+            prop_oneof![3 => mixed, 1 => steady].boxed()
         }
         Focus::C04 => {
             let t = prop_oneof![
